@@ -5,5 +5,5 @@ prop=$1; patch=$2
 d=$(mktemp -d /tmp/glbverif-try-XXXXXX)
 rsync -a --exclude .git /repo/ $d/
 ( cd $d && git apply --whitespace=nowarn "$patch" ) || { echo "PATCH DOES NOT APPLY"; rm -rf $d; exit 3; }
-/verif/bin/glbcheck -prop $prop -scratch -repo $d -verif /verif 2>&1 | sed "s#$d/##g"
+${GLBCHECK:-/verif/bin/glbcheck} -prop $prop -scratch -repo $d -verif /verif 2>&1 | sed "s#$d/##g"
 rm -rf $d
